@@ -482,6 +482,33 @@ where
     }
 }
 
+/// Verification hooks: public wrappers around crate-private address sorting.
+#[cfg(feature = "verif-hooks")]
+#[doc(hidden)]
+pub mod verif_hooks {
+    use super::{IpVersion, SocketAddrs};
+    use std::net::{Ipv4Addr, Ipv6Addr, SocketAddr};
+
+    /// `SocketAddrs::sort_preferred` over a plain list.
+    pub fn sort_preferred(addrs: Vec<SocketAddr>, prefer: Option<IpVersion>) -> Vec<SocketAddr> {
+        let mut addrs = SocketAddrs::from_iter(addrs);
+        addrs.sort_preferred(prefer);
+        addrs.into_iter().collect()
+    }
+
+    /// `SocketAddrs::set_port` over a plain list.
+    pub fn set_port(addrs: Vec<SocketAddr>, port: u16) -> Vec<SocketAddr> {
+        let mut addrs = SocketAddrs::from_iter(addrs);
+        addrs.set_port(port);
+        addrs.into_iter().collect()
+    }
+
+    /// `IpVersion::from_binding`.
+    pub fn from_binding(v4: Option<Ipv4Addr>, v6: Option<Ipv6Addr>) -> Option<IpVersion> {
+        IpVersion::from_binding(v4, v6)
+    }
+}
+
 #[cfg(test)]
 mod test {
 
